@@ -70,6 +70,8 @@ DATE_PATTERNS = {
     "hetero": lambda T: [float((i * 3) % (T + 1)) for i in range(T)],
     "ties": lambda T: [float(i // 2) for i in range(T)],
     "calendar": lambda T: [2000.0 + float((i * 5) % (T + 2)) for i in range(T)],
+    # calendar dates relative to the most recent sample: all <= 0, the largest exactly 0 (the smallest is not 0: these are not ages)
+    "nonpositive": lambda T: [-1.25 * float((i * 3) % (T + 1)) for i in range(T)],
 }
 
 
